@@ -140,6 +140,14 @@ C01_TimeLimitFails ==
   \A s \in tstops : s.reason = "timeout" /\ Out(s.t) = "Finished" =>
      \E r \in ranOk : r.t = s.t /\ r.inst > s.inst
 
+\* the at-rest form of "every accepted task ends in an outcome": when nothing is in flight, nothing runs and the scheduler
+\* has nothing to do, a task without outcome is still known to the core and legitimately waiting (for a dependency, or for
+\* a worker that could run it)
+C01_OutcomeAtRest ==
+  Quiescent => \A t \in AllTasks : Out(t) = "none" =>
+     /\ t \in DOMAIN task /\ task[t].st = "W"
+     /\ task[t].nd > 0 \/ ~Runnable(t)
+
 (* C02 - nothing lost or stuck; registries agree *)
 C02_Registry ==
   /\ \A t \in DOMAIN task : JobOf(t) \in DOMAIN job /\ t \in DOMAIN job[JobOf(t)].tasks
